@@ -115,6 +115,7 @@ QJsonObject to_json(const Plan &p)
     s["yield_pct"] = p.yield_pct;
     s["spurious_pm"] = p.spurious_pm;
     s["time_adv_pct"] = p.time_adv_pct;
+    s["clock_yield_pct"] = p.clock_yield_pct;
     s["stall_tid"] = p.stall_tid;
     s["stall_from"] = p.stall_from;
     s["stall_len"] = p.stall_len;
@@ -160,6 +161,7 @@ bool from_json(const QJsonObject &o, Plan &p, std::string *err)
     p.yield_pct = s["yield_pct"].toInt(100);
     p.spurious_pm = s["spurious_pm"].toInt();
     p.time_adv_pct = s["time_adv_pct"].toInt(20);
+    p.clock_yield_pct = s["clock_yield_pct"].toInt(0);
     p.stall_tid = s["stall_tid"].toInt(-1);
     p.stall_from = s["stall_from"].toInt();
     p.stall_len = s["stall_len"].toInt();
@@ -362,6 +364,8 @@ void gen_sched(Gen &g, Plan &p, int nthreads_hint)
     p.spurious_pm = g.r.chance(1, 4) ? 5 : 0;
     static const int ta[] = { 0, 10, 20, 40 };
     p.time_adv_pct = ta[g.r.below(4)];
+    static const int cy[] = { 0, 0, 10, 30, 100 };
+    p.clock_yield_pct = cy[g.r.below(5)];
     if (g.r.chance(1, 5)) {
         p.stall_tid = (int)g.r.below(nthreads_hint + 1);
         p.stall_from = (int)g.r.below(200);
@@ -409,6 +413,11 @@ Plan gen_C03(Gen &g, Plan p)
     p.poison = true;
     bool gate = g.r.chance(1, 4);
     p.root = gen_tree(g, gate);
+    if (g.r.chance(1, 4)) {
+        // a handler that logs from the logger thread itself
+        Node rl = mk(g, "relog", (int)g.r.range(2, 4));
+        p.root.kids.insert(p.root.kids.begin() + g.r.below(p.root.kids.size() + 1), rl);
+    }
     int np = (int)g.r.range(1, g.r.chance(1, 4) ? 6 : 3);
     for (int i = 0; i < np; i++) {
         auto ops = gen_producer(g, msgs_per_producer(g), true, 30);
@@ -453,6 +462,15 @@ Plan gen_C04(Gen &g, Plan p)
     p.poison = true;
     bool gate = g.r.chance(1, 6) && fam != "H4c";
     p.root = gen_tree(g, gate);
+    if (g.r.chance(1, 6)) {
+        Node rl = mk(g, "relog", (int)g.r.range(2, 4));
+        p.root.kids.insert(p.root.kids.begin() + g.r.below(p.root.kids.size() + 1), rl);
+    }
+    if (g.r.chance(1, 8)) {
+        // one message gets stuck in a handler for longer than the 3 s the stop waits for the thread
+        Node sl = mk(g, "slowonce", 0, (int)g.r.range(3200, 6000));
+        p.root.kids.insert(p.root.kids.begin() + g.r.below(p.root.kids.size() + 1), sl);
+    }
     int np = (int)g.r.range(0, 4);
     bool burst = g.r.chance(1, 4);
     for (int i = 0; i < np; i++) {
@@ -561,8 +579,8 @@ Plan gen_C11(Gen &g, Plan p)
     p.target = "logger";
     p.app = g.r.chance(1, 2);
     p.poison = false;
-    static const char *modes[] = { "fluent-plain", "fluent-rot", "oneline-plain", "oneline-rot" };
-    std::string mode = modes[g.r.below(4)];
+    static const char *modes[] = { "fluent-plain", "fluent-rot", "oneline-plain", "oneline-rot", "fluent-multi" };
+    std::string mode = modes[g.r.below(5)];
     p.cfg["mode"] = QString::fromStdString(mode);
     bool rot = mode == "fluent-rot" || mode == "oneline-rot";
     if (rot) {
@@ -578,6 +596,26 @@ Plan gen_C11(Gen &g, Plan p)
     }
     if (mode == "fluent-plain" || mode == "fluent-rot")
         p.cfg["pattern"] = g.r.chance(1, 2) ? -1 : 0; // -1: no formatter (raw message), 0: "%{message}"
+    if (mode == "fluent-multi") {
+        // a second file sink (audit.log) in a sub-pipeline behind a filter that may reject the fatal message
+        p.cfg["pattern"] = 0;
+        int kind = (int)g.r.below(3); // 0 level filter, 1 category rules, 2 regular expression
+        p.cfg["audit_kind"] = kind;
+        static const int lv[] = { 4, 1, 2 }; // info, warning, critical
+        p.cfg["audit_arg"] = kind == 0 ? lv[g.r.below(3)] : (kind == 1 ? (int)g.r.below(kNumCatRules) : (int)g.r.below(3));
+        bool arot = g.r.chance(1, 2);
+        p.cfg["audit_rot"] = arot;
+        if (arot) {
+            static const int sizes[] = { 200, 1000, 20000 };
+            p.cfg["audit_size"] = sizes[g.r.below(3)];
+        }
+        if (g.r.chance(1, 2)) {
+            p.cfg["max_size"] = 1000;
+            p.cfg["max_count"] = 0;
+            p.cfg["options"] = 0;
+            p.cfg["main_rot"] = true;
+        }
+    }
     p.cfg["preexisting"] = g.r.chance(1, 4) ? (int)g.r.range(1, 300) : 0; // bytes already in the file
     p.root = Node();
     p.root.kind = "pipe";
